@@ -1,6 +1,155 @@
-/- Line-protocol driver for engine `wal` — not built yet (stub). -/
+/- Line-protocol driver for the write-ahead-log model (engine `wal`). -/
+import AxVerif.Model.Wal
+import AxVerif.Generated.Wal
+namespace AxVerif.Wal
+open AxVerif
+
+def P : Params := Generated.walParams
+
+def parseDefects (flags : List String) : Defects :=
+  { lsnFromBlockZero := flags.contains "lsnFromBlockZero",
+    flushOverwritesBlockOne := flags.contains "flushOverwritesBlockOne",
+    readerTrustsMemoryHeader := flags.contains "readerTrustsMemoryHeader",
+    reopenReusesBlockZero := flags.contains "reopenReusesBlockZero",
+    shortFileIsError := flags.contains "shortFileIsError" }
+
+def validKind (k : Nat) : Bool := k ≤ 3 || (6 ≤ k && k ≤ 11)
+
+def pattern (a b c : Nat) (len : Nat) : Bytes :=
+  (List.range len).map (fun i => UInt8.ofNat (a + i * b + c))
+
+/-- the record `push T K U R` stands for (same function in harness/src/engines/wal.rs) -/
+def mkRec (tid kind ulen rlen : Nat) : Rec :=
+  let dml := kind ≥ 6
+  { lsn := 0, tid := tid,
+    prev := if tid % 2 = 1 then some (tid / 2) else none,
+    oid := if dml then some (tid % 7 + 1) else none,
+    rowid := if dml then some (tid * 3) else none,
+    kind := kind,
+    undo := pattern (tid * 7) 3 1 ulen,
+    redo := pattern (tid * 11) 5 2 rlen }
+
+def fnv (bs : Bytes) (h : UInt32) : UInt32 :=
+  bs.foldl (fun h b => (h ^^^ b.toUInt32) * 16777619) h
+
+def hex32 (x : UInt32) : String :=
+  let n := x.toNat
+  String.ofList ((List.range 8).map (fun i => hexDigit (n / 16 ^ (7 - i) % 16)))
+
+def showOpt : Option Nat → String
+  | none => "-"
+  | some v => toString v
+
+def showRec (r : Rec) : String :=
+  s!"{r.lsn}:{r.tid}:{r.kind}:{showOpt r.prev}:{showOpt r.oid}:{showOpt r.rowid}:{r.undo.length}:{r.redo.length}:{recSize P r}:{hex32 (fnv r.redo (fnv r.undo 2166136261))}"
+
+def errName : Err → String
+  | .tooLarge => "toolarge"
+  | .full => "full"
+  | .eof => "eof"
+
+def showOut : Out → String
+  | .lsn n => s!"ok {n}"
+  | .ok => "ok"
+  | .err e => s!"err {errName e}"
+  | .recs l => "[" ++ joinWith "," (l.map showRec) ++ "]"
+  | .dead => "dead"
+
+/-- an op of a sequence case: a log operation, or `image` = an independent look at the file -/
+inductive DOp where
+  | op (o : Op)
+  | image
+
+def parseOp (s : String) : Option DOp :=
+  match words s with
+  | ["push", t, k, u, r] =>
+    match t.toNat?, k.toNat?, u.toNat?, r.toNat? with
+    | some t, some k, some u, some r =>
+      if t < 2^32 ∧ validKind k ∧ u ≤ 65535 ∧ r ≤ 65535 then some (.op (.push (mkRec t k u r))) else none
+    | _, _, _, _ => none
+  | ["force"] => some (.op .force)
+  | ["truncate"] => some (.op .truncate)
+  | ["reopen"] => some (.op .reopen)
+  | ["crash"] => some (.op .crash)
+  | ["image"] => some .image
+  | ["read", k] =>
+    match k.toNat? with
+    | some k => if k ≤ 64 then some (.op (.read k)) else none
+    | none => none
+  | _ => none
+
+def parseOps : List String → Option (List DOp)
+  | [] => some []
+  | s :: rest =>
+    match parseOp s, parseOps rest with
+    | some o, some os => some (o :: os)
+    | _, _ => none
+
+def diagOf (D : Defects) (s : State) : String :=
+  if !s.alive then "dead" else
+  s!"tb={s.hdr.hdr.totalBlocks} te={s.hdr.hdr.totalEntries} pend={s.queue.length} last={showOpt (lastLsn D s)}"
+
+def showBlockImage (b : Block) : String :=
+  s!"{b.num}:{b.used}:{showOpt b.first}:{showOpt b.last}:{hex32 (fnv (encodeRecs P b.recs) 2166136261)}"
+
+/-- the file block by block: number, used bytes, first/last LSN of the block header and a digest of the used part
+    of the data area (the concatenated record images); block zero also shows `total_blocks` -/
+def showImage (d : Disk) : String :=
+  match d.zero with
+  | none => "{}"
+  | some z =>
+    "{" ++ joinWith "," ((showBlockImage z.blk ++ s!":tb={z.hdr.totalBlocks}") :: d.blocks.map showBlockImage) ++ "}"
+
+/-- outputs and per-op diagnostics -/
+def runDiag (D : Defects) : State → List DOp → List String × List String
+  | _, [] => ([], [])
+  | s, .image :: ops =>
+    let (os, ds) := runDiag D s ops
+    ((if s.alive then showImage s.disk else "dead") :: os, diagOf D s :: ds)
+  | s, .op op :: ops =>
+    let (s1, o) := step P D s op
+    let (os, ds) := runDiag D s1 ops
+    (showOut o :: os, diagOf D s1 :: ds)
+
+def parseOptNat (s : String) : Option (Option Nat) :=
+  if s = "-" then some none else
+  match s.toNat? with
+  | some n => if n < 2^64 then some (some n) else none
+  | none => none
+
+def seqLine (D : Defects) (body : String) : String :=
+  let parts := (body.splitOn ";").map (fun s => s.trimAscii.toString) |>.filter (fun s => s ≠ "")
+  match parseOps parts with
+  | none => "bad-op"
+  | some ops =>
+    let (os, ds) := runDiag D (init P) ops
+    joinWith " ; " os ++ " ## " ++ joinWith " ; " ds
+
+def stepLine (D : Defects) (line : String) : String :=
+  let line := line.trimAscii.toString
+  if line = "seq" then seqLine D ""
+  else if line.startsWith "seq |" then seqLine D (line.drop 5).toString
+  else
+  match words line with
+  | ["rec", lsn, tid, kind, prev, oid, row, undo, redo] =>
+    match lsn.toNat?, tid.toNat?, kind.toNat?, parseOptNat prev, parseOptNat oid, parseOptNat row,
+          bytesOfHex undo, bytesOfHex redo with
+    | some lsn, some tid, some kind, some prev, some oid, some row, some undo, some redo =>
+      if lsn < 2^64 ∧ tid < 2^64 ∧ validKind kind ∧ undo.length ≤ 65535 ∧ redo.length ≤ 65535 then
+        let r : Rec := { lsn := lsn, tid := tid, prev := prev, oid := oid, rowid := row, kind := kind,
+                         undo := undo, redo := redo }
+        let img := encodeRecord P r
+        let rest : Bytes := List.replicate 24 0xEE
+        let rt := match decodeRecord (img ++ rest) with
+          | some (r', rest') => if r' = r ∧ rest' = rest then "rt=ok" else "rt=DIFF"
+          | none => "rt=DIFF"
+        s!"{hexOfBytes img} {rt}"
+      else "bad-op"
+    | _, _, _, _, _, _, _, _ => "bad-op"
+  | _ => "bad-op"
+
+end AxVerif.Wal
+
 namespace AxVerif.Drivers
-
-def wal (_flags : List String) (_line : String) : String := "unimplemented"
-
+def wal (flags : List String) (line : String) : String := AxVerif.Wal.stepLine (AxVerif.Wal.parseDefects flags) line
 end AxVerif.Drivers
